@@ -104,6 +104,12 @@ def hooks():
             return CW.const(s.lstrip() if nm.endswith("start") else s.rstrip())
         if re.search(r"<impl str>::chars$", nm):
             return LM.itr(tuple(CW.const(ord(c)) for c in s))
+        if re.search(r"<impl str>::eq_ignore_ascii_case$|<impl \[u8\]>::eq_ignore_ascii_case$", nm):
+            o = _s(a1)
+            if o is not None:
+                fold = lambda x: "".join(chr(ord(c) + 32) if "A" <= c <= "Z" else c for c in x)     # noqa: E731 - ASCII letters only
+                return CW.const(1 if fold(s) == fold(o) else 0)
+            return None
         if re.search(r"cmp::PartialEq.*>::(eq|ne)$", nm):
             o = _s(a1)
             if o is not None:
